@@ -10,10 +10,16 @@
     * `C05_sort_is_perm_invariant_on_distinct_keys`-style facts are part of C18.
     * depth-one fragment (every resolvable callee is a leaf): `C05_depthOne_order_independent`
       (+ `_mem`, `C05_depthOne_getsOf`): a root's result is the same under any two root orders.
+    * TREE fragment, call graphs of arbitrary depth (`TreeLike`: from every root the resolvable
+      call graph unfolds to a tree): `C05_tree_order_independent` (+ `_fulls`): the SET of names
+      reported for a root is the same under any two root orders (and after any earlier
+      generation: `C05_tree_unrelated_roots`).
 -/
 import RattrProofs.Lemmas.Results
 import RattrProofs.Lemmas.ResultsCex
 import RattrProofs.Lemmas.ResultsDepthOne
+import RattrProofs.Lemmas.ResultsTree
+import RattrProofs.Lemmas.ResultsTreeCheck
 
 namespace Rattr.C05
 open Rattr Rattr.Results Rattr.Cex
@@ -107,5 +113,67 @@ example : DepthOne P1 ∧
     getsOf P1 σ1 [0, 1, 2] 1 = some [s "b.y", s "b.y.attr"] ∧
     getsOf P1 σ1 [2, 1, 0] 1 = some [s "b.y", s "b.y.attr"] :=
   ⟨P1_depthOne, by decide +kernel, by decide +kernel⟩
+
+/-! ### the tree fragment (arbitrary depth): membership does not depend on the order of roots -/
+
+/-- In the tree fragment (`TreeLike`; `CidArgs` holds of all real inputs) the SET of names reported
+for a root — gets, sets and dels — is the same under any two orders of roots (any lists of roots:
+no `Nodup`, no `Perm` needed): whatever the earlier roots wrote into the shared store, the result
+is the closure `Clo` of the root over the ORIGINAL store `σ`. (As lists the results may differ in
+order; on the pinned code outside the fragment even the sets differ: `C05_cex_order`.) -/
+theorem C05_tree_order_independent (P : Prog) (hT : TreeLike P) (hC : CidArgs P) (σ : Store)
+    (o₁ o₂ : List Key) (rs₁ rs₂ : List (Key × IrSets)) (σ₁ σ₂ : Store)
+    (h₁ : generate P o₁ σ = .ok (rs₁, σ₁)) (h₂ : generate P o₂ σ = .ok (rs₂, σ₂))
+    (f : Key) (res₁ res₂ : IrSets) (m₁ : (f, res₁) ∈ rs₁) (m₂ : (f, res₂) ∈ rs₂) (x : NameS) :
+    (x ∈ res₁.gets ↔ x ∈ res₂.gets) ∧ (x ∈ res₁.sets ↔ x ∈ res₂.sets) ∧
+    (x ∈ res₁.dels ↔ x ∈ res₂.dels) := by
+  obtain ⟨_, a, _⟩ := generate_tree hT.2 hC o₁ σ σ₁ rs₁ (StoreInv.refl P σ) h₁
+  obtain ⟨_, b, _⟩ := generate_tree hT.2 hC o₂ σ σ₂ rs₂ (StoreInv.refl P σ) h₂
+  have key : ∀ k : Kind, x ∈ res₁.of k ↔ x ∈ res₂.of k :=
+    fun k => (a f res₁ m₁ k x).trans (b f res₂ m₂ k x).symm
+  exact ⟨key .get, key .set, key .del⟩
+
+/-- the same for the reported spellings. -/
+theorem C05_tree_order_independent_fulls (P : Prog) (hT : TreeLike P) (hC : CidArgs P) (σ : Store)
+    (o₁ o₂ : List Key) (rs₁ rs₂ : List (Key × IrSets)) (σ₁ σ₂ : Store)
+    (h₁ : generate P o₁ σ = .ok (rs₁, σ₁)) (h₂ : generate P o₂ σ = .ok (rs₂, σ₂))
+    (f : Key) (res₁ res₂ : IrSets) (m₁ : (f, res₁) ∈ rs₁) (m₂ : (f, res₂) ∈ rs₂) (n : Str) :
+    (n ∈ fulls res₁.gets ↔ n ∈ fulls res₂.gets) ∧ (n ∈ fulls res₁.sets ↔ n ∈ fulls res₂.sets) ∧
+    (n ∈ fulls res₁.dels ↔ n ∈ fulls res₂.dels) := by
+  have key := C05_tree_order_independent P hT hC σ o₁ o₂ rs₁ rs₂ σ₁ σ₂ h₁ h₂ f res₁ res₂ m₁ m₂
+  unfold fulls
+  simp only [List.mem_map]
+  refine ⟨⟨?_, ?_⟩, ⟨?_, ?_⟩, ⟨?_, ?_⟩⟩
+  · rintro ⟨x, hx, e⟩; exact ⟨x, (key x).1.mp hx, e⟩
+  · rintro ⟨x, hx, e⟩; exact ⟨x, (key x).1.mpr hx, e⟩
+  · rintro ⟨x, hx, e⟩; exact ⟨x, (key x).2.1.mp hx, e⟩
+  · rintro ⟨x, hx, e⟩; exact ⟨x, (key x).2.1.mpr hx, e⟩
+  · rintro ⟨x, hx, e⟩; exact ⟨x, (key x).2.2.mp hx, e⟩
+  · rintro ⟨x, hx, e⟩; exact ⟨x, (key x).2.2.mpr hx, e⟩
+
+/-- independence of unrelated code: generating ANY other roots first (the list `pre`) does not
+change the set of names reported for `f`. -/
+theorem C05_tree_unrelated_roots (P : Prog) (hT : TreeLike P) (hC : CidArgs P) (σ : Store)
+    (pre : List Key) (f : Key) (rs : List (Key × IrSets)) (σ₁ σ₂ : Store) (res₁ res₂ : IrSets)
+    (h₁ : generate P (pre ++ [f]) σ = .ok (rs, σ₁)) (m₁ : (f, res₁) ∈ rs)
+    (h₂ : runRoot P σ f = .ok (res₂, σ₂)) (x : NameS) :
+    (x ∈ res₁.gets ↔ x ∈ res₂.gets) ∧ (x ∈ res₁.sets ↔ x ∈ res₂.sets) ∧
+    (x ∈ res₁.dels ↔ x ∈ res₂.dels) := by
+  obtain ⟨_, a, _⟩ := generate_tree hT.2 hC _ σ σ₁ rs (StoreInv.refl P σ) h₁
+  have b := (runRoot_tree hT.2 hC (StoreInv.refl P σ) h₂).1
+  have key : ∀ k : Kind, x ∈ res₁.of k ↔ x ∈ res₂.of k :=
+    fun k => (a f res₁ m₁ k x).trans (b k x).symm
+  exact ⟨key .get, key .set, key .del⟩
+
+/-- non-vacuity: the 4-function chain and the 5-function binary tree, generated in two orders
+(callees first / callers first). -/
+example : TreeLike Pchain ∧ CidArgs Pchain ∧
+    getsOf Pchain σchain [0, 1, 2, 3] 0 = some [s "x.a0", s "x.b0", s "x.d0"] ∧
+    getsOf Pchain σchain [3, 2, 1, 0] 0 = some [s "x.a0", s "x.b0", s "x.d0"] ∧
+    TreeLike Ptree ∧ CidArgs Ptree ∧
+    setsOf Ptree σtree [0, 1, 2, 3, 4] 0 = some [s "p.x"] ∧
+    setsOf Ptree σtree [4, 3, 1, 2, 0] 0 = some [s "p.x"] :=
+  ⟨Pchain_treeLike, Schain_hyps0.cid, by decide +kernel, by decide +kernel,
+   Ptree_treeLike, Stree_hyps0.cid, by decide +kernel, by decide +kernel⟩
 
 end Rattr.C05
